@@ -11,7 +11,7 @@ from harness import gallina as G
 from harness.gallina import Tag
 
 ID = "C14"
-COQ_DIRS = ["C14"]
+COQ_DIRS = ["C14", "C15"]
 PROPERTY_FILE = "C14/Property.v"
 RUN_IMPORTS = "From TV Require Import C14.Model C14.Run."
 RUN_FN = "run_case"
